@@ -187,8 +187,9 @@ func (w *worker[T, JobType]) releaseWaiters(processing uint32) {
 		return
 	}
 
-	// Only release waiters if worker is paused or if running with an empty queue
-	if w.IsPaused() || (w.IsRunning() && w.queues.Len() == 0) {
+	// Only release waiters if the worker is not running (paused, or stopped while a job that a
+	// concurrent Resume let through was still in flight) or if running with an empty queue
+	if !w.IsRunning() || w.queues.Len() == 0 {
 		// Broadcast to all waiters to signal they can continue. Taking the lock orders the
 		// broadcast after a waiter that has evaluated its condition but not yet parked,
 		// so the wake-up cannot fall in between and get lost.
@@ -650,7 +651,14 @@ func (w *worker[T, JobType]) Stop() error {
 	if cancel != nil {
 		defer cancel()
 	}
-	defer w.status.Store(stopped)
+	defer func() {
+		w.status.Store(stopped)
+		// a WaitUntilFinished caller parked while the worker was still running (a concurrent
+		// Resume) waits for less now: let it look again, nobody else will
+		w.mx.Lock()
+		w.waiters.Broadcast()
+		w.mx.Unlock()
+	}()
 
 	w.stopTickers()
 	w.closeChannels()
